@@ -412,7 +412,14 @@ impl<'t, 'a> Renderer<'t, 'a> {
             _ => {
                 self.features.push("continuation-between-tokens");
                 self.line += 1;
-                format!(" $\n{}", " ".repeat(self.t.below(5)))
+                let mut o = format!(" $\n{}", " ".repeat(self.t.below(5)));
+                // continued lines holding nothing but a further continuation
+                while self.t.chance(25) {
+                    self.features.push("continuation-after-continuation");
+                    self.line += 1;
+                    o.push_str(&format!("$\n{}", " ".repeat(self.t.below(4))));
+                }
+                o
             }
         }
     }
